@@ -498,6 +498,41 @@ func c01Pair(p *Program, r *Report, key string, enc, dec *types.Func, v constant
 			}
 		}
 	}
+	// reader-driven case split: a value the *decoder* distinguishes (it compares what it read with a
+	// constant K) while the encoder wrote it without ever looking at it is re-examined with the
+	// encoder's field fixed to K - the encoder may treat that value differently in other versions
+	// only, which is exactly the asymmetry to find.
+	if presets == nil {
+		type cand struct {
+			key string
+			k   constant.Value
+		}
+		cands := map[string]cand{}
+		for _, rq := range rseqs {
+			for id, k := range rq.st.symEq {
+				for idx, it := range rq.items {
+					if it.kind != "op" || it.id != id {
+						continue
+					}
+					for _, o := range ws {
+						witems := traceSeq(o.St.trace, o.St, wr.in)
+						if idx < len(witems) && witems[idx].kind == "op" && witems[idx].name == it.name && witems[idx].arg.K == KExpr && witems[idx].arg.Key != "" {
+							cands[witems[idx].arg.Key+"="+k.ExactString()] = cand{witems[idx].arg.Key, k}
+						}
+					}
+				}
+			}
+		}
+		var cks []string
+		for ck := range cands {
+			cks = append(cks, ck)
+		}
+		sort.Strings(cks)
+		for _, ck := range cks {
+			cd := cands[ck]
+			c01Pair(p, r, key+" ["+ck+"]", enc, dec, v, leg, byteMode, map[string]Val{cd.key: {K: KConst, C: cd.k}})
+		}
+	}
 	if len(ws) == 0 && len(rs) == 0 {
 		r.OKf("enc-vs-dec", key, enc.Pos(), "no success path on either side for this version")
 		return 0
